@@ -144,6 +144,8 @@ ArgAlts ==
     AD("NLNInt=[3]", TNN(TList(TNN(N("Int")))), ListV(<< IntV("3") >>)),
     AD("LLInt=[[1],[2,3]]", TList(TList(N("Int"))), ListV(<< ListV(<< IntV("1") >>), ListV(<< IntV("2"), IntV("3") >>) >>)),
     AD("Float=1.5", N("Float"), FloatV("1.5")), AD("Float=2", N("Float"), FloatV("2")),
+    AD("Float=2500000", N("Float"), FloatV("2500000")),   \* a whole float Go prints with an exponent
+    AD("Float=max32", N("Float"), FloatV("max32")),
     AD("String=ab", N("String"), StrV("a b")), AD("String=empty", N("String"), StrV("")),
     AD("Boolean=false", N("Boolean"), BoolV(FALSE)), AD("Boolean=true", N("Boolean"), BoolV(TRUE)),
     AD("ID=x1", N("ID"), StrV("x1")),
